@@ -164,13 +164,28 @@ struct Emitter {
       if (u->getOpcode() == UO_AddrOf) return "[\"addr\"," + E(u->getSubExpr()) + "]";
       if (u->isIncrementDecrementOp())
         return "[\"incdec\"," + jstr(op) + "," + (u->isPrefix() ? "1" : "0") + "," + E(u->getSubExpr()) + "]";
-      return "[\"un\"," + jstr(op) + "," + E(u->getSubExpr()) + "]";
+      {
+        QualType T = u->getType();
+        std::string t = (T.isNull() || !T->isIntegralOrEnumerationType()) ? std::string(",0,0")
+          : "," + std::to_string(Ctx.getTypeSize(T)) + "," + (T->isSignedIntegerOrEnumerationType() ? "1" : "0");
+        return "[\"un\"," + jstr(op) + "," + E(u->getSubExpr()) + t + "]";
+      }
     }
     if (auto *b = dyn_cast<BinaryOperator>(e)) {
       std::string op = b->getOpcodeStr().str();
-      if (b->isAssignmentOp())
-        return "[\"assign\"," + jstr(op) + "," + E(b->getLHS()) + "," + E(b->getRHS()) + "]";
-      return "[\"bin\"," + jstr(op) + "," + E(b->getLHS()) + "," + E(b->getRHS()) + "]";
+      // trailing type facts (additive): width and signedness of the type the operation is carried out in
+      // (comparisons: the converted operand type; compound assignments: the computation type)
+      auto ty = [&](QualType T) -> std::string {
+        if (T.isNull() || !T->isIntegralOrEnumerationType()) return ",0,0";
+        return "," + std::to_string(Ctx.getTypeSize(T)) + "," + (T->isSignedIntegerOrEnumerationType() ? "1" : "0");
+      };
+      if (b->isAssignmentOp()) {
+        std::string t = ",0,0";
+        if (auto *ca = dyn_cast<CompoundAssignOperator>(b)) t = ty(ca->getComputationResultType());
+        return "[\"assign\"," + jstr(op) + "," + E(b->getLHS()) + "," + E(b->getRHS()) + t + "]";
+      }
+      QualType T = (b->isComparisonOp() || b->isLogicalOp()) ? b->getLHS()->getType() : b->getType();
+      return "[\"bin\"," + jstr(op) + "," + E(b->getLHS()) + "," + E(b->getRHS()) + ty(T) + "]";
     }
     if (auto *c = dyn_cast<ConditionalOperator>(e))
       return "[\"cond\"," + E(c->getCond()) + "," + E(c->getTrueExpr()) + "," + E(c->getFalseExpr()) + "]";
